@@ -178,6 +178,9 @@ func runWorkload(c *wk.Ctx, i int) {
 	}
 	sort.Slice(ks, func(a, b int) bool { return ks[a] < ks[b] })
 	budget := c.Pick(260, 4000) // thorough: all ordering points of an ordinary workload, a seeded 4000 of the largest ones
+	if w.desc["big_keys"] == true {
+		budget = c.Pick(260, 1500) // long-key workloads have 10-25 thousand ordering points and slow recoveries
+	}
 	if len(ks) > budget {
 		r.Shuffle(len(ks), func(a, b int) { ks[a], ks[b] = ks[b], ks[a] })
 		ks = ks[:budget]
